@@ -2,8 +2,6 @@ package vuego
 
 import (
 	"fmt"
-	"reflect"
-	"strconv"
 	"strings"
 
 	"golang.org/x/net/html"
@@ -173,6 +171,12 @@ func (v *Vue) evalBoundAttribute(ctx VueContext, attrName, expr string) (any, er
 	return "", nil
 }
 
+// objectPair is one key of an object literal with its evaluated value.
+type objectPair struct {
+	key string
+	val any
+}
+
 // evalObjectBinding evaluates object literals like {display: "none"} or {active: true, error: false}
 // For :class, treats values as booleans and includes keys where value is truthy.
 // For :style, treats values as strings and builds CSS property:value pairs.
@@ -194,18 +198,18 @@ func (v *Vue) evalObjectBinding(ctx VueContext, attrName, expr string) string {
 
 	// For other attributes, just concatenate all values
 	var values []string
-	for _, v := range pairs {
-		if v != "" {
-			values = append(values, v)
+	for _, p := range pairs {
+		if p.val != nil {
+			values = append(values, fmt.Sprintf("%s:%v", p.key, p.val))
 		}
 	}
 	return strings.Join(values, " ")
 }
 
 // parseObjectPairs parses key:value pairs from an object literal.
-// Returns a slice of resolved values in order.
-func (v *Vue) parseObjectPairs(ctx VueContext, content string) []string {
-	var pairs []string
+// Returns the keys with their resolved (typed) values in order.
+func (v *Vue) parseObjectPairs(ctx VueContext, content string) []objectPair {
+	var pairs []objectPair
 
 	// Split by comma, but respect quoted strings
 	items := v.splitObjectItems(content)
@@ -216,8 +220,8 @@ func (v *Vue) parseObjectPairs(ctx VueContext, content string) []string {
 			continue
 		}
 
-		// Split by colon
-		colonIdx := strings.Index(item, ":")
+		// Split at the first colon outside quotes: a quoted key may contain colons ('md:flex')
+		colonIdx := strings.Index(helpers.MaskQuoted(item), ":")
 		if colonIdx == -1 {
 			continue
 		}
@@ -229,23 +233,12 @@ func (v *Vue) parseObjectPairs(ctx VueContext, content string) []string {
 		// Try to resolve as expression first (handles literals and expressions)
 		val, err := v.exprEval.Eval(valueExpr, ctx.stack.EnvMap())
 		if err != nil {
-			// Fall back to stack resolution for variable references
-			var ok bool
-			val, ok = ctx.stack.Resolve(valueExpr)
-			if !ok {
-				pairs = append(pairs, "")
-				continue
-			}
+			// Fall back to stack resolution for variable references;
+			// an undefined variable contributes nothing: falsy for class, omitted for style
+			val, _ = ctx.stack.Resolve(valueExpr)
 		}
 
-		// nil (including undefined variables) contributes an empty value: falsy for class, omitted for style
-		if rv := reflect.ValueOf(val); val == nil || (rv.Kind() == reflect.Ptr && rv.IsNil()) {
-			pairs = append(pairs, key+":")
-			continue
-		}
-
-		// Store both key and resolved value
-		pairs = append(pairs, fmt.Sprintf("%s:%v", key, val))
+		pairs = append(pairs, objectPair{key: key, val: val})
 	}
 
 	return pairs
@@ -290,28 +283,13 @@ func (v *Vue) splitObjectItems(content string) []string {
 }
 
 // buildClassString builds a space-separated class string from key:value pairs.
-// Includes key only if the boolean value is truthy.
-func (v *Vue) buildClassString(pairs []string) string {
+// Includes key only if the value is truthy.
+func (v *Vue) buildClassString(pairs []objectPair) string {
 	var classes []string
 
 	for _, pair := range pairs {
-		pair = strings.TrimSpace(pair)
-		if pair == "" {
-			continue
-		}
-
-		colonIdx := strings.Index(pair, ":")
-		if colonIdx == -1 {
-			continue
-		}
-
-		key := strings.TrimSpace(pair[:colonIdx])
-		valueStr := strings.TrimSpace(pair[colonIdx+1:])
-
-		// Check if value is truthy using the actual type
-		val := parseValue(valueStr)
-		if helpers.IsTruthy(val) {
-			classes = append(classes, key)
+		if pair.key != "" && helpers.IsTruthy(pair.val) {
+			classes = append(classes, pair.key)
 		}
 	}
 
@@ -320,26 +298,15 @@ func (v *Vue) buildClassString(pairs []string) string {
 
 // buildStyleString builds a CSS style string from key:value pairs.
 // Each pair becomes a property:value; entry.
-// camelCase keys are automatically converted to kebab-case (e.g., fontSize -> font-size).
-func (v *Vue) buildStyleString(pairs []string) string {
+func (v *Vue) buildStyleString(pairs []objectPair) string {
 	var styles []string
 
 	for _, pair := range pairs {
-		pair = strings.TrimSpace(pair)
-		if pair == "" {
+		key := pair.key
+		if key == "" || pair.val == nil {
 			continue
 		}
-
-		colonIdx := strings.Index(pair, ":")
-		if colonIdx == -1 {
-			continue
-		}
-
-		key := strings.TrimSpace(pair[:colonIdx])
-		value := strings.TrimSpace(pair[colonIdx+1:])
-
-		// Remove quotes if present
-		value = strings.Trim(value, "\"'")
+		value := strings.TrimSpace(fmt.Sprint(pair.val))
 
 		if value != "" {
 			// Convert camelCase to kebab-case if the key doesn't contain hyphens
@@ -366,35 +333,6 @@ func camelToKebab(s string) string {
 		}
 	}
 	return result.String()
-}
-
-// parseValue converts a string representation to a Go value for truthiness check.
-func parseValue(s string) interface{} {
-	s = strings.TrimSpace(s)
-
-	// Handle boolean strings
-	switch s {
-	case "true":
-		return true
-	case "false":
-		return false
-	}
-
-	// Handle quoted strings
-	if (strings.HasPrefix(s, "\"") && strings.HasSuffix(s, "\"")) ||
-		(strings.HasPrefix(s, "'") && strings.HasSuffix(s, "'")) {
-		return strings.Trim(s, "\"'")
-	}
-
-	// Handle numbers - convert to int for proper truthiness checking
-	if i, err := strconv.ParseInt(s, 10, 64); err == nil {
-		return int(i)
-	}
-	if f, err := strconv.ParseFloat(s, 64); err == nil {
-		return f
-	}
-
-	return s
 }
 
 // mergeStyles merges static and bound CSS styles, with bound values taking precedence.
